@@ -370,6 +370,21 @@ fn job_run(job: &J) -> J {
             );
         }
         Err(e) => {
+            // What `garden run` prints for a runtime error.
+            match &e {
+                EvalError::Exception(ExceptionInfo { position, message })
+                | EvalError::AssertionFailed(position, message) => {
+                    let rendered = crate::diagnostics::format_exception_with_stack(
+                        message,
+                        position,
+                        &env.stack.0,
+                        &env.vfs,
+                        &env.project_root,
+                    );
+                    res.insert("rendered_len".into(), json!(rendered.len()));
+                }
+                _ => {}
+            }
             res.insert("outcome".into(), eval_error_json(&e));
         }
     }
@@ -672,6 +687,24 @@ fn front_all(src: &str) -> (usize, bool, Option<(&'static str, String)>) {
         let (vfs, vfs_path) = Vfs::singleton(path.clone(), src.to_owned());
         let (items, errors) = parse_toplevel_items(&vfs_path, src, &mut id_gen);
         let _ = format!("{items:#?}").len();
+        // What `garden check` / `run` / `reftest-ast` print for each parse error.
+        for e in &errors {
+            if let ParseError::Invalid {
+                position,
+                message,
+                notes,
+            } = e
+            {
+                let _ = crate::diagnostics::format_diagnostic(
+                    message,
+                    position,
+                    std::path::Path::new("/verif_scratch"),
+                    Severity::Error,
+                    notes,
+                    &vfs,
+                );
+            }
+        }
         (items, errors.len(), id_gen, vfs, vfs_path)
     });
     let (items, id_gen, vfs, vfs_path) = match r {
@@ -688,6 +721,17 @@ fn front_all(src: &str) -> (usize, bool, Option<(&'static str, String)>) {
             let ns = env.get_or_create_namespace(&path);
             let (mut diags, _) = load_toplevel_items(&items, &mut env, Rc::clone(&ns));
             diags.extend(check_toplevel_items_in_env(&vfs_path, &items, &env, ns));
+            // What `garden check` prints for each diagnostic.
+            for d in &diags {
+                let _ = crate::diagnostics::format_diagnostic(
+                    &d.message,
+                    &d.position,
+                    &env.project_root,
+                    d.severity,
+                    &d.notes,
+                    &env.vfs,
+                );
+            }
             diags.len()
         });
         if let Err(msg) = r {
